@@ -12,9 +12,9 @@ if [ "$PHASE" != "B" ]; then
 cd $WT && git checkout -q -- src && rm -f tests/seed_demo_*.rs
 export CARGO_NET_OFFLINE=true CARGO_TARGET_DIR=$WT/target
 mkdir -p tests; cp $S/demo.rs tests/seed_demo_$M.rs
-without=$(cargo test --offline --test seed_demo_$M 2>&1 | grep -E "^test result" | tail -1)
+without=$(cargo test --offline --test seed_demo_$M 2>&1 | grep -a -E "^test result" | tail -1)
 git apply $S/patch.diff || { echo "PATCH DOES NOT APPLY"; exit 2; }
-with=$(cargo test --offline --test seed_demo_$M 2>&1 | grep -E "^test result" | tail -1)
+with=$(cargo test --offline --test seed_demo_$M 2>&1 | grep -a -E "^test result" | tail -1)
 base=$(cargo test --offline --lib --no-fail-fast -- --test-threads 8 > /tmp/seed_base_$$.txt 2>&1; python3 - /tmp/seed_base_$$.txt <<'PY'
 import json,re,sys
 out=open(sys.argv[1]).read()
